@@ -24,6 +24,8 @@ def run(tier):
     for cfgname in cfgs:
         prog = Program.load(which=('SRC',), cfg=cfgname)
         eff = PathEffects(prog)
+        from ..rules import spblas as _sb
+        _sb.conjugate_branch_rule(chk, 'C06.conj', prog, cfgname)
         chk.clause('C06.phases', 'R3 oracle group `phases` of ?gssvx (D1)')
         chk.clause('C06.preorder', 'R3 oracle of sp_preorder (D1)')
         chk.clause('C06.D2', 'reuse branch refreshes what the creators bind')
